@@ -36,34 +36,43 @@ def _check(prop, repo_dir, seed):
 
 
 def run(prop, seed=0):
-    res = {"mutants": [], "benign": [], "missed": [], "false_alarms": [], "skipped": []}
+    """exit 1 on a benign rewrite (a VIOLATION line) or exit 3 (a checker fault) is a false alarm; exit 2 on a benign rewrite
+    is recorded as 'undecided' (the check says so itself and raises no violation)"""
+    from concurrent.futures import ThreadPoolExecutor
+    res = {"mutants": [], "benign": [], "missed": [], "false_alarms": [], "undecided_benign": [], "skipped": []}
+    jobs = []
     for meta in sorted(glob.glob(os.path.join(ROOT, "seeded", "C*", "meta.json"))):
         m = json.load(open(meta))
         sid = os.path.basename(os.path.dirname(meta))
         props = set([m.get("property", sid)]) | set(m.get("also_breaks", []))
-        if prop not in props:
-            continue
-        d, err = _scratch(os.path.join(os.path.dirname(meta), "patch.diff"))
-        if d is None:
-            res["skipped"].append({"seed": sid, "why": "patch no longer applies: " + err})
-            continue
-        try:
-            rc, lines = _check(prop, d, seed)
-        finally:
-            shutil.rmtree(d, ignore_errors=True)
-        res["mutants"].append({"seed": sid, "exit": rc, "lines": lines})
-        if rc != 1:
-            res["missed"].append(sid)
+        if prop in props:
+            jobs.append(("seed", sid, os.path.join(os.path.dirname(meta), "patch.diff")))
     for patch in sorted(glob.glob(os.path.join(ROOT, "seeded", "benign", "*.diff"))):
+        jobs.append(("benign", os.path.basename(patch), patch))
+
+    def one(job):
+        kind, name, patch = job
         d, err = _scratch(patch)
         if d is None:
-            res["skipped"].append({"seed": os.path.basename(patch), "why": "patch no longer applies: " + err})
-            continue
+            return kind, name, None, "patch no longer applies: " + err
         try:
             rc, lines = _check(prop, d, seed)
         finally:
             shutil.rmtree(d, ignore_errors=True)
-        res["benign"].append({"patch": os.path.basename(patch), "exit": rc, "lines": lines})
-        if rc != 0:
-            res["false_alarms"].append(os.path.basename(patch))
+        return kind, name, rc, lines
+    with ThreadPoolExecutor(max_workers=int(os.environ.get("VERIF_SELFTEST_JOBS", "6"))) as ex:
+        out = list(ex.map(one, jobs))
+    for kind, name, rc, lines in out:
+        if rc is None:
+            res["skipped"].append({"seed": name, "why": lines})
+        elif kind == "seed":
+            res["mutants"].append({"seed": name, "exit": rc, "lines": lines})
+            if rc != 1:
+                res["missed"].append(name)
+        else:
+            res["benign"].append({"patch": name, "exit": rc, "lines": lines})
+            if rc == 2:
+                res["undecided_benign"].append(name)
+            elif rc != 0:
+                res["false_alarms"].append(name)
     return res
